@@ -85,14 +85,28 @@ func (m SliceDotsMatcher) Match(got reflect.Value, d data.Data, r Region) (data.
 		return d, false
 	}
 
-	for i, section := range m.Sections[1:] {
-		idx, d, ok = findSection(m.Dots[i], section, gotItems, d, r, idx)
+	return m.matchRest(0, gotItems, d, r, idx)
+}
+
+// matchRest matches Sections[i+1:] against got[idx:]. The "..." at Dots[i]
+// takes the shortest run of items for which the rest of the list can still
+// be matched; if a later section fails to match, longer runs are tried.
+func (m SliceDotsMatcher) matchRest(i int, got []reflect.Value, d data.Data, r Region, idx int) (data.Data, bool) {
+	if i == len(m.Dots) {
+		return d, idx == len(got)
+	}
+
+	for start := idx; start <= len(got); start++ {
+		newIdx, newD, ok := findSection(m.Dots[i], m.Sections[i+1], got, d, r, idx, start)
 		if !ok {
-			return d, false
+			continue
+		}
+		if newD, ok = m.matchRest(i+1, got, newD, r, newIdx); ok {
+			return newD, true
 		}
 	}
 
-	return d, idx == len(gotItems)
+	return d, false
 }
 
 // Returns Region for items[start:end].
@@ -128,30 +142,15 @@ func matchPrefix(want []Matcher, got []reflect.Value, d data.Data, r Region, idx
 	return idx + len(want), d, true
 }
 
-// findSection attempts to match want starting at got[idx], moving onto idx+1,
-// idx+2, and so on until a match is found. Returns the new index for the
+// findSection attempts to match want at got[start], treating got[idx:start]
+// as the items skipped by the "..." at dots. Returns the new index for the
 // remaining matches.
 //
-// Invariant: If ok is true, a list of skipped items will have been pushed to
-// Data.
-func findSection(dots token.Pos, want []Matcher, got []reflect.Value, d data.Data, r Region, idx int) (newIdx int, _ data.Data, ok bool) {
-	// Special case: Looking for "..." at the end of the list. Skip everything
-	// in got.
-	if len(want) == 0 {
-		r := sectionRegion(got, r, idx, len(got))
-		d := pushSliceDotsSkipped(d, dots, got[idx:], r)
-		return matchPrefix(want, got, d, r, len(got))
-	}
-
-	for i := idx; i < len(got); i++ {
-		r := sectionRegion(got, r, idx, i)
-		newIdx, newD, ok := matchPrefix(want, got, pushSliceDotsSkipped(d, dots, got[idx:i], r), r, i)
-		if ok {
-			return newIdx, newD, ok
-		}
-	}
-
-	return idx, d, false
+// Invariant: If ok is true, the list of skipped items will have been pushed
+// to Data.
+func findSection(dots token.Pos, want []Matcher, got []reflect.Value, d data.Data, r Region, idx, start int) (newIdx int, _ data.Data, ok bool) {
+	r = sectionRegion(got, r, idx, start)
+	return matchPrefix(want, got, pushSliceDotsSkipped(d, dots, got[idx:start], r), r, start)
 }
 
 // SliceDotsReplacer replaces target nodes and reproduces the values captured by
